@@ -246,6 +246,31 @@ def parse_coq_nat_list(out, marker=None):
     return [int(x) for x in re.findall(r"-?\d+", body)]
 
 
+def coq_eval(group, workdir, name, prelude, exprs, timeout=900, extra_q=()):
+    """Evaluate closed Coq expressions of type list nat / list N / list Z by vm_compute.
+    prelude: Coq text (Require Imports, case definitions); exprs: {label: expr}.
+    Returns (ok, {label: [ints]} or error text)."""
+    lines = ["Require Import Coq.Strings.String.", prelude]
+    for k, e in exprs.items():
+        lines.append('Eval vm_compute in ("MARK:%s")%%string.' % k)
+        lines.append("Eval vm_compute in (%s)." % e)
+    rc, out = coq_run(group, workdir, name, "\n".join(lines) + "\n", timeout=timeout, extra_q=extra_q)
+    if rc != 0:
+        return False, out
+    res = {}
+    parts = re.split(r'= "MARK:([A-Za-z0-9_]+)"%string\s*\n\s*: string', out)
+    for k in range(1, len(parts), 2):
+        body = parts[k + 1]
+        m = re.search(r"=\s*(.*?)\n\s*:\s*list", body, re.S)
+        if not m:
+            return False, "cannot parse result for %s:\n%s" % (parts[k], body[:500])
+        res[parts[k]] = [int(x) for x in re.findall(r"-?\d+", m.group(1))]
+    for k in exprs:
+        if k not in res:
+            return False, "no result for %s\n%s" % (k, out[-1500:])
+    return True, res
+
+
 # ----------------------------------------------------------------------------- Go harness
 
 def go_overlay(workdir, mapping, replace=None):
@@ -285,13 +310,20 @@ def run_bin(binp, run, env_extra=None, cwd=None, timeout=600, inp=None):
               cwd=cwd or os.path.dirname(binp), env=env, timeout=timeout + 30, inp=inp)
 
 
+def bin_dir():
+    """.build/bin for /repo, .build/bin-<hash> for a scratch worktree given in VERIF_REPO."""
+    if REPO == "/repo":
+        return os.path.join(BUILD, "bin")
+    return os.path.join(BUILD, "bin-" + hashlib.sha1(REPO.encode()).hexdigest()[:8])
+
+
 def build_ego(timeout=1200):
     """Build the ego binary from the working tree into .build/ego (shared, locked)."""
     ok, out = ensure_generated()
     if not ok:
         return False, out
     with Lock("egobin"):
-        binp = os.path.join(BUILD, "bin", "ego")
+        binp = os.path.join(bin_dir(), "ego")
         os.makedirs(os.path.dirname(binp), exist_ok=True)
         rc, out = sh(["go", "build", "-o", binp, "."], cwd=REPO, env=goenv(), timeout=timeout)
         if rc != 0:
@@ -305,7 +337,7 @@ def ego_env(workdir):
     tmp = os.path.join(workdir, "tmp")
     for d in (home, tmp):
         os.makedirs(d, exist_ok=True)
-    env = goenv({"HOME": home, "TMPDIR": tmp, "EGO_PATH": os.path.join(BUILD, "bin")})
+    env = goenv({"HOME": home, "TMPDIR": tmp, "EGO_PATH": bin_dir()})
     return env
 
 
@@ -390,6 +422,10 @@ class Check:
 
     def finish(self):
         """Print KNOWN-FINDING / VIOLATION lines, write evidence, exit."""
+        if getattr(self, "coq_broken", None) and not self.viol:
+            grp, log = self.coq_broken
+            self.violation("proof-broken", "Coq development coq/%s no longer checks:\n%s" % (grp, log[-1200:]),
+                           replay={"broken": "coq/" + grp, "log": log[-3000:]}, found_input=False)
         new = []
         printed = set()
         for v in self.viol:
@@ -440,10 +476,26 @@ class Check:
 
 
 def load_known():
-    p = os.path.join(VERIF, "known_findings.json")
-    if not os.path.exists(p):
-        return {"findings": [], "fixed": []}
-    return json.load(open(p))
+    """known_findings.json (merged file) plus known_findings.d/<Cxx>.json (one per property)."""
+    res = {"findings": [], "fixed": []}
+    paths = [os.path.join(VERIF, "known_findings.json")]
+    d = os.path.join(VERIF, "known_findings.d")
+    if os.path.isdir(d):
+        paths += sorted(os.path.join(d, f) for f in os.listdir(d) if f.endswith(".json"))
+    seen = set()
+    for p in paths:
+        if not os.path.exists(p):
+            continue
+        j = json.load(open(p))
+        for k in j.get("findings", []):
+            key = (k["property"], k["signature"])
+            if key not in seen:
+                seen.add(key)
+                res["findings"].append(k)
+        for k in j.get("fixed", []):
+            if k not in res["fixed"]:
+                res["fixed"].append(k)
+    return res
 
 
 def match_known(known, pid, signature):
